@@ -282,6 +282,9 @@ func runC11(c *Ctx) {
 	c.c11MessagesAreNotFormats()
 	c.c11ContextFirst()
 	c.c11SerialisedBytesBelongToTheCaller()
+	c.rule("D15", "where a converter builds its result with fmt.Errorf and a kind of package commonerrors, the verb bound to the kind is %w: the result is an error of that kind, not only a text that starts with its name", 1)
+	c.rule("D16", "no converter of the module compares an error with a sentinel by identity (`==`, value switch): conditions are recognised with commonerrors.Any / errors.Is, wrapped or not", 5)
+	c.c11ConvertersWrapTheKind("D16", "D15")
 }
 
 // c11Separators (D7): writer and reader of the text form agree. The constructors write "kind<sep> reason" and the
@@ -1567,5 +1570,110 @@ func (c *Ctx) c11SerialisedBytesBelongToTheCaller() {
 		c.FuncsSeen[fname(f)] = true
 		c.check(bad == "", "D14", fname(f)+"/bytes-of-their-own", c.pos(f.Pos()), "what is returned does not alias pooled or package-level storage",
 			"the bytes "+fname(f)+" returns alias "+bad+": the caller that keeps the text of one joined error while it serialises (or deserialises) another finds the first text overwritten in place — deserialised, it yields the kinds of the second error, or a truncated mix of the two")
+	}
+}
+
+// c11ConvertersWrapTheKind (D15, and A23 for C09): the converters (Convert…Error) of the module. Two obligations:
+//   - identity: a converter recognises a sentinel with commonerrors.Any / errors.Is, never by comparing the error value with
+//     `==` or a value `switch` — a wrapped end-of-stream (`fmt.Errorf("record %d is incomplete: %w", k, io.ErrUnexpectedEOF)`)
+//     is an end-of-stream;
+//   - wrap: where a converter builds its result with fmt.Errorf and one operand is a kind of package commonerrors, the verb
+//     bound to that operand is %w — `"%v: %w"` with the kind first prints the same text and wraps the other operand: the result
+//     reads 'timeout: …' and is not a timeout.
+func (c *Ctx) c11ConvertersWrapTheKind(ruleIdentity, ruleWrap string) {
+	nI, nW := 0, 0
+	for _, sp := range c.SSAPkgs {
+		if !strings.HasPrefix(sp.Pkg.Path(), modPath) {
+			continue
+		}
+		for _, f := range c.srcFuncs(shortPkg(sp.Pkg.Path())) {
+			top := outermost(f)
+			if f.Blocks == nil || !strings.HasPrefix(top.Name(), "Convert") || !strings.HasSuffix(top.Name(), "Error") && !strings.Contains(top.Name(), "Error") {
+				continue
+			}
+			if ruleIdentity != "" {
+				bad := ""
+				allInstrs(f, func(in ssa.Instruction) {
+					b, ok := in.(*ssa.BinOp)
+					if !ok || (b.Op != token.EQL && b.Op != token.NEQ) || !isErrorType(b.X.Type()) {
+						return
+					}
+					isSentinel := func(v ssa.Value) bool {
+						u, ok := v.(*ssa.UnOp)
+						if !ok {
+							return false
+						}
+						_, isG := u.X.(*ssa.Global)
+						return isG
+					}
+					if isSentinel(b.X) || isSentinel(b.Y) {
+						bad = c.ipos(b)
+					}
+				})
+				nI++
+				c.FuncsSeen[fname(top)] = true
+				c.check(bad == "", ruleIdentity, fname(f)+"/sentinels-recognised-when-wrapped", c.pos(f.Pos()), "no sentinel is compared with `==` (or a value switch) in the converter",
+					"the converter compares the error with a sentinel by identity at "+bad+": an end-of-stream (or any other condition) that reaches it wrapped — `fmt.Errorf(\"record %d is incomplete: %w\", k, io.ErrUnexpectedEOF)`, an error type answering Is() — is no longer recognised and comes out without its kind")
+			}
+			if ruleWrap != "" {
+				allInstrs(f, func(in ssa.Instruction) {
+					cl, ok := in.(*ssa.Call)
+					if !ok || calleeFull(&cl.Call) != "fmt.Errorf" || len(cl.Call.Args) < 2 {
+						return
+					}
+					format, isC := constString(cl.Call.Args[0])
+					if !isC {
+						return
+					}
+					var verbs []string
+					for i := 0; i+1 < len(format); i++ {
+						if format[i] == '%' {
+							if format[i+1] == '%' {
+								i++
+								continue
+							}
+							j := i + 1
+							for j < len(format) && strings.ContainsRune("+-# 0123456789.[]*", rune(format[j])) {
+								j++
+							}
+							if j < len(format) {
+								verbs = append(verbs, string(format[j]))
+							}
+							i = j
+						}
+					}
+					els := variadicElems(cl.Call.Args[1])
+					kindAt := -1
+					for i, e := range els {
+						u, ok := resolveValue(e).(*ssa.UnOp)
+						if !ok {
+							continue
+						}
+						if g, isG := u.X.(*ssa.Global); isG && g.Pkg != nil && strings.HasSuffix(g.Pkg.Pkg.Path(), "/commonerrors") && strings.HasPrefix(g.Name(), "Err") {
+							kindAt = i
+						}
+					}
+					if kindAt < 0 || kindAt >= len(verbs) {
+						return
+					}
+					nW++
+					c.FuncsSeen[fname(top)] = true
+					kindName := ""
+					if u, ok := resolveValue(els[kindAt]).(*ssa.UnOp); ok {
+						if g, isG := u.X.(*ssa.Global); isG {
+							kindName = g.Name()
+						}
+					}
+					c.check(verbs[kindAt] == "w", ruleWrap, fname(f)+"/kind-wrapped:"+kindName, c.ipos(cl), "the verb bound to the kind is %w",
+						"the kind handed to fmt.Errorf is formatted with %"+verbs[kindAt]+" (format "+strconv.Quote(format)+"): the result reads like an error of that kind and does not wrap it — `commonerrors.Any(err, kind)` answers false, a later wrap reclassifies it, and after serialisation no kind is left")
+				})
+			}
+		}
+	}
+	if ruleIdentity != "" && nI == 0 {
+		c.violate(ruleIdentity, "module/no-converter", "-", "no Convert…Error function left in the module")
+	}
+	if ruleWrap != "" && nW == 0 {
+		c.info(ruleWrap, "module/no-errorf-with-a-kind", "-", "no converter builds its result with fmt.Errorf and a kind")
 	}
 }
